@@ -78,6 +78,20 @@ def component_log_pdf(kind, model, data):
     return model.spatial_weight * spatial + model.spectral_weight * spectral
 
 
+def stream_log_pdfs(kind, model, data):
+    """(spatial, spectral) log densities (F, K, T) of an integration model, each already multiplied by its stream weight."""
+    y = data['y']
+    F, T, D = y.shape
+    e = data['e']
+    E = e.shape[-1]
+    spatial = model.cacg.log_pdf(y[..., None, :, :])
+    comp = model.gaussian if kind == 'gcacgmm' else model.vmf
+    sp = comp.log_pdf(e.reshape(1, F * T, E))
+    K = sp.shape[0]
+    spectral = np.transpose(sp.reshape(K, F, T), (1, 0, 2))
+    return model.spatial_weight * spatial, model.spectral_weight * spectral
+
+
 def independent_component_log_pdf(kind, model, data):
     """Same quantity from the monitor's own density formulas (used where the component's own
     log_pdf is the thing in question)."""
